@@ -1,33 +1,34 @@
 #!/bin/bash
 # tools_seed.sh <id> <demo pkg> <demo run regex> "<existing test pkgs>" [check ids...]
-# Confirms a sub-agent's seeded change (demo fails with / passes without, existing tests pass with),
-# then runs the quick check(s) against it and files everything under /verif/seeded/<id>/.
+# Confirms a sub-agent's seeded change from its deliverables alone (/tmp/wt_out/<id>/patch.diff + demo test):
+# demo passes without / fails with the change, existing tests pass with it; then runs the quick check(s)
+# against it and files everything under /verif/seeded/<id>/.  Works on a scratch worktree of /repo's HEAD
+# (never on /repo, never with git stash: the stash is shared between worktrees).
 export GOFLAGS=-mod=mod GOPROXY=off GOSUMDB=off GOTOOLCHAIN=local
 id=$1; pkg=$2; run=$3; pkgs=$4; shift 4; checks=${@:-$id}
-wt=/tmp/wt/$id; out=/tmp/wt_out/$id; dst=/verif/seeded/$id
+out=/tmp/wt_out/$id; dst=/verif/seeded/$id; S=${SEEDREPO:-/tmp/seedrepo}
 mkdir -p $dst
-cd $wt || exit 1
-demo=$(git status --short | grep '^??' | grep '_test.go' | awk '{print $2}' | head -1)
-echo "demo file: $demo"
-with=$(go test -vet=off -count=1 -run "$run" $pkg 2>&1 | tail -3 | tr '\n' ' ')
-git stash -q
+demo=$(ls $out/*_test.go | head -1)
+[ -f "$demo" ] || { echo "no demo test in $out"; exit 1; }
+cp $out/patch.diff $dst/patch.diff; cp $demo $dst/$(basename $demo)
+SEEDREPO=$S /verif/tools_scratch.sh
+cd $S || exit 1
+cp $demo $S/$pkg/$(basename $demo)
 without=$(go test -vet=off -count=1 -run "$run" $pkg 2>&1 | tail -3 | tr '\n' ' ')
-git stash pop -q
-mv $demo /tmp/demo_$id.go.aside
+git apply $dst/patch.diff || { echo "patch does not apply to /repo HEAD"; exit 1; }
+with=$(go test -vet=off -count=1 -run "$run" $pkg 2>&1 | tail -3 | tr '\n' ' ')
+rm -f $S/$pkg/$(basename $demo)
 existing=$(go test -vet=off -count=1 $pkgs 2>&1 | tail -4 | tr '\n' ' ')
-mv /tmp/demo_$id.go.aside $demo
-echo "WITH: $with"; echo "WITHOUT: $without"; echo "EXISTING: $existing"
-cp $out/patch.diff $dst/patch.diff; cp $wt/$demo $dst/$(basename $demo)
+rm -rf $S/core/statestate_test
+echo "demo file: $demo"; echo "WITH: $with"; echo "WITHOUT: $without"; echo "EXISTING: $existing"
 # run the checks against the change
-/verif/tools_scratch.sh
-export VERIF_REPO=${SEEDREPO:-/tmp/seedrepo} VERIF_EVIDENCE=${SEEDREPO:-/tmp/seedrepo}_evidence
-cd ${SEEDREPO:-/tmp/seedrepo} && git apply $dst/patch.diff || { echo "patch does not apply to /repo HEAD"; exit 1; }
+export VERIF_REPO=$S VERIF_EVIDENCE=${S}_evidence
 res=""
 for c in $checks; do
   o=$(cd /verif && timeout 1500 ./check $c quick 2>/dev/null | grep -E "^VIOLATION|^OK |^INCONCLUSIVE|label=" | head -6 | tr '\n' ' ')
   res="$res [$c] $o"
 done
-git -C ${SEEDREPO:-/tmp/seedrepo} checkout -- .
+git -C $S checkout -- .
 echo "CHECKS: $res"
 python3 - "$id" "$with" "$without" "$existing" "$res" "$pkg" "$run" <<'PY'
 import json,sys
